@@ -93,6 +93,7 @@ def run(tier):
             cur.append(line)
     opkinds = collections.Counter()
     disagreements, san_fail, model_bad = [], 0, 0
+    seen_fp = {}
     calls = 0
     distinct = set()
     for h, (rc, out, err), (mlines, mend) in zip(hs, impl, mchunks):
@@ -104,6 +105,10 @@ def run(tier):
         ilines = [l for l in out.split('\n') if l and not l.startswith(('ASSERT', 'ERROR', ' ', 'EXCEPTION'))]
         if fp:
             san_fail += 1
+            if fp in seen_fp:
+                seen_fp[fp] += 1
+                continue
+            seen_fp[fp] = 1
             rep = '\n'.join(l for l in err.split('\n') if re.match(r'\s+#[0-6] ', l) or 'SUMMARY' in l or 'ERROR' in l)[:2500]
             res.violation({'what': 'sanitizer / assertion report on a legal API history', 'history': h, 'report': rep,
                            'assert': out[-400:] if 'ASSERT' in out else None,
@@ -132,7 +137,7 @@ def run(tier):
                 'moves with followers; transactions on and off, both routing modes) + random legal histories from VERIF_SEED; distinct = distinct op-kind sequences',
         'samples': [hs[0], hs[len(hs) // 2], hs[-1]],
         'traces_validated_against_impl': len(hs) - len(disagreements) - san_fail,
-        'op_histogram': dict(opkinds), 'sanitizer_failures': san_fail, 'model_disagreements': len(disagreements)})
+        'op_histogram': dict(opkinds), 'sanitizer_failures': san_fail, 'failure_fingerprints': seen_fp, 'model_disagreements': len(disagreements)})
     res.assumptions = ['ASan/UBSan/LSan observe the run-time part (they are the implementation-side observation for freed/dangling/leaked)',
                        'junctions and shapes are both "obstacles" in the model; connection-pin change markers are not modelled (never dereferenced)']
     if disagreements:
